@@ -46,7 +46,7 @@ for c in payload['cases']:
                 p.set_value('number_of_threads', 1, 'MultiThreading')
                 p.set_value('generate_html', False, 'Output')
                 p.set_value('generate_pickle', False, 'Output')
-                p.set_value('save_iterations', False, 'Estimation')
+                p.set_value('save_iterations', True, 'Estimation')
                 b = BIOGEME(db, e2, parameters=p)
                 names = list(b.id_manager.free_betas.names)
                 r['names'] = names
@@ -61,6 +61,19 @@ for c in payload['cases']:
                     r['loglike'] = enc(b.calculate_likelihood(x, scaled=False))
                     sim = b.simulate(full)
                     r['simulate'] = [enc(v) for v in sim.iloc[:, 0].tolist()]
+                    # the saved-iteration file pairs names and values
+                    import os
+                    fn = f'__{b.modelName}.iter'
+                    if os.path.exists(fn):
+                        os.remove(fn)
+                    fgh = b.calculate_likelihood_and_derivatives(x, scaled=False, hessian=False, bhhh=False)
+                    if os.path.exists(fn):
+                        saved = {}
+                        for line in open(fn):
+                            k, v = line.rsplit('=', 1)
+                            saved[k.strip()] = float(v)
+                        r['iter_file'] = saved
+                        os.remove(fn)
                 except Exception as ex:  # noqa
                     r['biogeme_exc'] = f'{type(ex).__name__}: {str(ex)[:160]}'
                     poisoned = True
